@@ -23,7 +23,7 @@ def do_replay(path):
 
 
 KNOWN_PRINTED = set()
-ENGINE_B_PROPS = {"C10", "C13", "C08", "C02", "C03", "C09", "C20", "C01", "C06", "C07", "C11", "C12"}
+ENGINE_B_PROPS = {"C14", "C10", "C13", "C08", "C02", "C03", "C09", "C20", "C01", "C06", "C07", "C11", "C12"}
 
 
 def engine_b_part(prop, tier):
